@@ -174,6 +174,160 @@ func hostileParam(r *rand.Rand) string {
 	}
 }
 
+// ---- the ISUPPORT stream: server options that other handlers consume later ----
+//
+// CHANMODES and PREFIX are stored by 005 and only read when a channel is created
+// (createChannel -> NewCModes / parsePrefixes) or a MODE / NAMES line is interpreted; the
+// length options feed the line-length bookkeeping. Every value below is followed by the
+// lines that consume it.
+
+var (
+	isupChanmodes = []string{
+		"CHANMODES=beI,k,l,imnpst", "CHANMODES=b,k", "CHANMODES=beI", "CHANMODES=b,k,l", "CHANMODES=,", "CHANMODES=,,", "CHANMODES=,,,", "CHANMODES=,,,,",
+		"CHANMODES=a,b,c,d,e", "CHANMODES=a,b,c,d,e,f", "CHANMODES=b,", "CHANMODES=,k", "CHANMODES=b,,l", "CHANMODES=b,k,l,", "CHANMODES=,,,imnpst",
+		"CHANMODES=", "CHANMODES", "CHANMODES=b;k", "CHANMODES=b,k,l,imn pst", "CHANMODES=b,k,l,imn1", "CHANMODES=\xe9,k,l,m", "CHANMODES=B,K,L,IMNPST", "CHANMODES=ov,k,l,ov",
+		"CHANMODES=bbbb,kkkk,llll,mmmm", "CHANMODES=k,k,k,k", "CHANMODES=I", "CHANMODES=,b",
+	}
+	isupPrefix = []string{
+		"PREFIX=(ov)@+", "PREFIX=(qaohv)~&@%+", "PREFIX=(ov)@", "PREFIX=(o)@+", "PREFIX=()", "PREFIX=(", "PREFIX=)", "PREFIX=(ov", "PREFIX=ov)@+", "PREFIX=", "PREFIX",
+		"PREFIX=(ov)@+)", "PREFIX=((ov)@+", "PREFIX=(o)v)@+x", "PREFIX=()@", "PREFIX=(ov)+@", "PREFIX=(vo)@+", "PREFIX=(ohv)@%+", "PREFIX=(Yqaohv)!~&@%+", "PREFIX=(ov)@+ ", "PREFIX=(k)@", "PREFIX=(ovov)@+@+",
+	}
+	isupOther = []string{
+		"CHANTYPES=#&", "CHANTYPES=", "CHANTYPES=#&!+", "CHANTYPES=x", "CASEMAPPING=ascii", "CASEMAPPING=rfc1459", "NETWORK=Test", "EXCEPTS", "EXCEPTS=e", "INVEX=", "STATUSMSG=@+", "MODES=4", "MODES=", "CHANLIMIT=#:120",
+		"LINELEN=512", "LINELEN=1024", "LINELEN=0", "LINELEN=-5", "LINELEN=2", "LINELEN=116", "LINELEN=117", "LINELEN=9223372036854775807", "LINELEN=9223372036854775808", "LINELEN=99999999999999999999", "LINELEN=+7", "LINELEN= 5", "LINELEN=0x10", "LINELEN=",
+		// NICKLEN/MAXNICKLEN/USERLEN/HOSTLEN stay below 3e18: handleISUPPORT adds three of them in Go
+		// ints, and the models do not model int64 wrap-around (DESIGN section 3); a value near
+		// MaxInt64 makes maxPrefixLength negative in the Go code (reported to C11).
+		"NICKLEN=9", "NICKLEN=0", "NICKLEN=-1", "NICKLEN=500", "NICKLEN=3000000000000000000", "NICKLEN=9223372036854775808", "NICKLEN=x", "MAXNICKLEN=40", "MAXNICKLEN=5", "MAXNICKLEN=-40", "MAXNICKLEN=-9223372036854775808",
+		"USERLEN=10", "USERLEN=30", "USERLEN=4000", "USERLEN=3000000000000000000", "HOSTLEN=100", "HOSTLEN=1", "HOSTLEN=3000000000000000000", "HOSTLEN=-9223372036854775809",
+		"=x", "A=", "==", "=", "K=a=b", "-CHANMODES", "chanmodes=b,k", "CHANMODES =b,k,l,m",
+	}
+)
+
+// modeLetters: the letters a CHANMODES / PREFIX token mentions, plus a few it does not.
+func modeLetters(tok string) string {
+	var b []byte
+	for i := 0; i < len(tok); i++ {
+		c := tok[i]
+		if (c >= 'a' && c <= 'z') || (c >= 'A' && c <= 'Z') || c >= 0x80 {
+			b = append(b, c)
+		}
+	}
+	return string(b) + "ovklbntz"
+}
+
+// isupportBlock: one 005 line, then the lines that consume what it stored: the creation of a
+// channel (our own JOIN or somebody else's), MODE and 324 with flags taken from the advertised
+// groups, NAMES with the advertised prefix symbols, a second 005 that changes the value under
+// an existing channel, and one more channel.
+func isupportBlock(r *rand.Rand, serial int) []Ev {
+	srv := func(cmd string, ps ...string) Ev { return Ev{HasSrc: true, Name: "srv", Cmd: cmd, Params: ps} }
+	isup := func() (Ev, string) {
+		ps := []string{"me"}
+		letters := ""
+		for i, n := 0, 1+r.Intn(3); i < n; i++ {
+			var t string
+			switch r.Intn(5) {
+			case 0, 1:
+				t = isupChanmodes[r.Intn(len(isupChanmodes))]
+			case 2, 3:
+				t = isupPrefix[r.Intn(len(isupPrefix))]
+			default:
+				t = isupOther[r.Intn(len(isupOther))]
+			}
+			if strings.ContainsAny(t, " ") || t == "" {
+				t = strings.ReplaceAll(t, " ", "")
+				if t == "" {
+					t = "X"
+				}
+			}
+			letters += modeLetters(t)
+			ps = append(ps, t)
+		}
+		ps = append(ps, Pick(r, "are supported by this server", "are supported by this server", "are supported by this server", "are available on this server", "this server"))
+		return srv("005", ps...), letters
+	}
+	flags := func(letters string) string {
+		var sb strings.Builder
+		for i, n := 0, 1+r.Intn(5); i < n; i++ {
+			if r.Intn(3) == 0 {
+				sb.WriteString(Pick(r, "+", "-"))
+			}
+			sb.WriteByte(letters[r.Intn(len(letters))])
+		}
+		return sb.String()
+	}
+	names := func() string {
+		var parts []string
+		for i, n := 0, 1+r.Intn(4); i < n; i++ {
+			parts = append(parts, RandBytes(r, r.Intn(3), "@+%~&!")+caseVariant(r, hostNicks[r.Intn(10)]))
+		}
+		return strings.Join(parts, " ")
+	}
+	e1, letters := isup()
+	ch := "#is" + strconv.Itoa(serial) + Pick(r, "", "[a]", "X")
+	joiner := Ev{HasSrc: true, Name: Pick(r, "me", "ME", "alice", "zed"), Ident: "u", Host: "h", Cmd: "JOIN", Params: []string{ch}}
+	out := []Ev{e1, joiner,
+		srv("MODE", caseVariant(r, ch), flags(letters), hostNicks[r.Intn(8)], Pick(r, "key", "5", "*!*@*", "bob")),
+		srv("353", "me", "=", caseVariant(r, ch), names()),
+		srv("324", "me", ch, flags(letters), Pick(r, "key", "5", "x"))}
+	if r.Intn(2) == 0 {
+		e2, letters2 := isup()
+		out = append(out, e2,
+			srv("MODE", ch, flags(letters+letters2), hostNicks[r.Intn(8)]),
+			Ev{HasSrc: true, Name: Pick(r, "me", "carol"), Ident: "u", Host: "h", Cmd: "JOIN", Params: []string{ch + "b"}},
+			srv("353", "me", "@", ch+"b", names()))
+	}
+	for i := range out { // only the last parameter may hold spaces or be empty
+		for j, p := range out[i].Params {
+			if j < len(out[i].Params)-1 && (p == "" || strings.ContainsAny(p, " ") || p[0] == ':') {
+				out[i].Params[j] = "x"
+			}
+		}
+	}
+	return out
+}
+
+// isupportHistories: every CHANMODES and PREFIX value of the pools above on its own, each
+// followed by the creation of a channel and by MODE / NAMES / 324 lines that read it.
+func isupportHistories(route string) []Case {
+	var out []Case
+	srv := func(cmd string, ps ...string) Ev { return Ev{HasSrc: true, Name: "srv", Cmd: cmd, Params: ps} }
+	for i, tok := range append(append([]string{}, isupChanmodes...), isupPrefix...) {
+		t := strings.ReplaceAll(tok, " ", "")
+		l := modeLetters(t)
+		ch := "#new" + strconv.Itoa(i)
+		for _, fresh := range []bool{false, true} {
+			var evs []Ev
+			if !fresh {
+				evs = joinedPrefix()
+			}
+			evs = append(evs,
+				srv("005", "me", t, "are supported by this server"),
+				Ev{HasSrc: true, Name: "me", Ident: "u", Host: "h", Cmd: "JOIN", Params: []string{ch}},
+				srv("353", "me", "=", ch, "me @alice +bob ~&%carol !dave"),
+				srv("MODE", ch, "+"+l[:3]+"-"+l[1:2]+"+"+l[len(l)-8:], "alice", "key", "5", "bob"),
+				srv("324", "me", ch, "+"+l, "a", "b", "c"),
+				Ev{HasSrc: true, Name: "zed", Ident: "z", Host: "h", Cmd: "JOIN", Params: []string{ch + "x"}},
+				srv("MODE", "#chan", "+"+l[:2], "alice", "bob"),
+				srv("005", "me", "CHANMODES=beI,k,l,imnpst", "PREFIX=(ov)@+", "are supported by this server"),
+				srv("MODE", ch, "-"+l, "alice", "key"))
+			out = append(out, EncodeHistory(route, "me", "user", evs))
+		}
+	}
+	for i, tok := range isupOther {
+		t := strings.ReplaceAll(tok, " ", "")
+		if t == "" {
+			continue
+		}
+		evs := append(joinedPrefix(), srv("005", "me", t, "NICKLEN=30", "are supported by this server"),
+			Ev{HasSrc: true, Name: "me", Ident: "u", Host: "h", Cmd: "JOIN", Params: []string{"#len" + strconv.Itoa(i)}},
+			srv("005", "me", "HOSTLEN=63", t, "are supported by this server"))
+		out = append(out, EncodeHistory(route, "me", "user", evs))
+	}
+	return out
+}
+
 func hostileEvent(r *rand.Rand) Ev {
 	e := Ev{Cmd: hostCmds[r.Intn(len(hostCmds))]}
 	if r.Intn(6) != 0 {
@@ -301,14 +455,20 @@ func init() {
 	Register(&Suite{
 		Name:  "state.hostile",
 		Prop:  []string{"C05"},
-		Fixed: func() []Case { return shapeHistories("feed") },
+		Fixed: func() []Case { return append(shapeHistories("feed"), isupportHistories("feed")...) },
 		Gen: func(r *rand.Rand) Case {
 			n := 3 + r.Intn(40)
 			evs := []Ev{}
 			if r.Intn(4) != 0 { // usually start from a joined state so that there is something to corrupt
 				evs = append(evs, joinedPrefix()...)
 			}
+			blocks := 0
 			for i := 0; i < n; i++ {
+				if r.Intn(25) == 0 && blocks < 3 {
+					blocks++
+					evs = append(evs, isupportBlock(r, blocks)...)
+					continue
+				}
 				evs = append(evs, hostileEvent(r))
 			}
 			return EncodeHistory("feed", "me", "user", evs)
@@ -323,9 +483,12 @@ func init() {
 				return Result{Obs: "?skipped-after-repeated-wedges", Sig: ""}
 			}
 			obs, oracle, ss := RunHistory(nick, user, evs)
-			if obs == "WEDGED" || obs == "NOPONG" {
+			switch obs {
+			case "WEDGED", "NOPONG":
 				slowFailures++ // the client is abandoned: stopping it could block on the leaked lock
-			} else {
+			case "PANIC":
+				// abandoned too: the handler may have died with the state lock held
+			default:
 				ss.Stop()
 			}
 			return Result{Obs: obs, Oracle: oracle, Sig: historySig(evs, obs)}
@@ -423,7 +586,7 @@ func init() {
 			one := func(route string, e ...Ev) Case {
 				return EncodeHistory(route, "me", "user", append(joinedPrefix(), e...))
 			}
-			return []Case{
+			fixed := []Case{
 				one("conn-norecover", Ev{Cmd: "352"}),
 				one("conn-norecover", Ev{Cmd: "353", Params: []string{"me", "="}}),
 				one("conn-norecover", Ev{Cmd: "CHGHOST", Params: []string{"a", "b"}}, Ev{Cmd: "AWAY", Params: []string{"x"}}, Ev{Cmd: "ACCOUNT", Params: []string{"x"}}),
@@ -440,6 +603,23 @@ func init() {
 				one("conn-sasl", Ev{Cmd: "904", Params: []string{"me", "failed"}}),
 				one("conn", Ev{HasSrc: true, Name: "srv", Cmd: "ERROR", Params: []string{"Closing link"}}),
 			}
+			// the server options that are consumed later (CHANMODES / PREFIX / lengths), on the socket
+			for i, c := range isupportHistories("conn-norecover") {
+				if i%2 == 1 {
+					continue // the variant from a fresh state runs on the synchronous route only
+				}
+				_, _, _, evs, _ := DecodeHistory(c)
+				ok := true
+				for _, e := range evs {
+					if _, lok := e.Line(); !lok {
+						ok = false
+					}
+				}
+				if ok {
+					fixed = append(fixed, c)
+				}
+			}
+			return fixed
 		},
 		Gen: func(r *rand.Rand) Case {
 			route := Pick(r, "conn", "conn", "conn-norecover", "conn-norecover", "conn-sasl")
@@ -448,7 +628,19 @@ func init() {
 			if r.Intn(4) != 0 {
 				evs = append(evs, joinedPrefix()...)
 			}
+			blocks := 0
 			for len(evs) < n {
+				if r.Intn(25) == 0 && blocks < 3 {
+					blocks++
+					for _, e := range isupportBlock(r, blocks) {
+						if line, ok := e.Line(); ok {
+							if back, pok := EvFromLine(line); pok {
+								evs = append(evs, back)
+							}
+						}
+					}
+					continue
+				}
 				e := hostileEvent(r)
 				if r.Intn(300) == 0 {
 					e = Ev{HasSrc: r.Intn(2) == 0, Name: "srv", Cmd: "ERROR", Params: []string{"Closing link"}}
